@@ -1,5 +1,6 @@
 import RsjProofs.Lower
 import RsjProofs.EvalSafeShape
+import RsjProofs.EvalPureTable
 /-!
   Every program the lowering produces has the shape `CoreShaped` (RsjProofs/EvalSafeShape.lean) that the
   evaluator's no-panic theorem (RsjProps/C01Eval.lean) assumes and the analyzer does not check: builtins
@@ -9,8 +10,15 @@ namespace Rsj.Lower
 open Rsj.Core Rsj.Eval
 
 theorem arityOk_of (b : Builtin) (n : Nat) (h : Lower.builtinArityOk b n = true) : Eval.builtinArityOk b n := by
-  unfold Eval.builtinArityOk Eval.builtinArity
-  cases b <;> simp [Lower.builtinArityOk] at h ⊢ <;> omega
+  cases b with
+  | pure p =>
+    simp only [Lower.builtinArityOk, beq_iff_eq] at h
+    refine Or.inl ?_
+    show n = (Eval.pureSpec p).arity
+    rw [Eval.pureSpec_arity p]; exact h
+  | _ =>
+    unfold Eval.builtinArityOk Eval.builtinArity
+    simp [Lower.builtinArityOk] at h ⊢ <;> omega
 
 /-- a lowered field name -/
 def FShaped : FName → Prop
